@@ -25,7 +25,8 @@ DROPPABLE = BUS_ELEMS + BRANCHES + FACTS + ["switch", "measurement", "bus"]
 FAMILY = {
     "drop_measurements_at_elements": "drop_references", "drop_controllers_at_elements": "drop_references",
     "drop_controllers_at_buses": "drop_references",
-    "drop_buses": "drop_buses", "drop_elements_at_buses": "drop_buses", "drop_switches_at_buses": "drop_buses",
+    "drop_buses": "drop_buses", "drop_elements_at_buses": "drop_elements_at_buses",
+    "drop_switches_at_buses": "drop_buses",
     "drop_lines": "drop_branches", "drop_trafos": "drop_branches", "drop_inner_branches": "drop_branches",
     "drop_elements_simple": "drop_elements",
     "drop_out_of_service_elements": "drop_out_of_service", "drop_inactive_elements": "drop_out_of_service",
